@@ -4,7 +4,6 @@ import MythVerif.Proofs.WsQueueTsoStepF8
 namespace MythVerif.WsqTso
 open MythVerif.Wsq
 
-set_option maxHeartbeats 4000000 in
 theorem f_O_shift_pus (s : St) (lo0 hi0 off0 : Int) (rest : List Sto) (e off) : Inv s → s.opc = .pus e off →
     s.bufO = .shift lo0 hi0 off0 :: rest → Inv (applySto { s with bufO := rest } (.shift lo0 hi0 off0)) := by
   intro h hpc hb
@@ -16,7 +15,6 @@ theorem f_O_shift_pus (s : St) (lo0 hi0 off0 : Int) (rest : List Sto) (e off) : 
   case mwin => intro k hk _; exact hmw k hk
   tso_goalsO h hpc
 
-set_option maxHeartbeats 4000000 in
 theorem f_O_shift_puv (s : St) (lo0 hi0 off0 : Int) (rest : List Sto) (e off) : Inv s → s.opc = .puv e off →
     s.bufO = .shift lo0 hi0 off0 :: rest → Inv (applySto { s with bufO := rest } (.shift lo0 hi0 off0)) := by
   intro h hpc hb
@@ -28,7 +26,6 @@ theorem f_O_shift_puv (s : St) (lo0 hi0 off0 : Int) (rest : List Sto) (e off) : 
   case mwin => intro k hk _; exact hmw k hk
   tso_goalsO h hpc
 
-set_option maxHeartbeats 4000000 in
 theorem f_O_shift_pux (s : St) (lo0 hi0 off0 : Int) (rest : List Sto) (e t) : Inv s → s.opc = .pux e t →
     s.bufO = .shift lo0 hi0 off0 :: rest → Inv (applySto { s with bufO := rest } (.shift lo0 hi0 off0)) := by
   intro h hpc hb
